@@ -94,10 +94,12 @@ def on_real_tree(tree, func, seconds=10):
 
 def normalise_obs(o, root):
     """Observations may contain the root path (absolute patterns): make them comparable between stub and real runs."""
+    # only an absolute spelling of the root is replaced (`../wcvroot`, reached from the tree through `..`, is a relative path, not the root)
     if isinstance(o, str):
-        return o.replace(root, '$ROOT')
+        return '$ROOT' + o[len(root):] if o.startswith(root) else o.replace(' ' + root, ' $ROOT')
     if isinstance(o, bytes):
-        return o.replace(os.fsencode(root), b'$ROOT')
+        rb = os.fsencode(root)
+        return b'$ROOT' + o[len(rb):] if o.startswith(rb) else o
     if isinstance(o, (list, tuple)):
         return [normalise_obs(x, root) for x in o]
     if isinstance(o, dict):
